@@ -382,6 +382,10 @@ impl ClientSessionHarness {
 // ---------------------------------------------------------------------------------------------
 
 pub struct ConnShared {
+    /// every transport handed to the task so far
+    pub ios: Vec<IoHandle>,
+    /// `Disabled` announcements made while the last transport was still open
+    pub disabled_before_close: u32,
     /// virtual ms of every connection attempt
     pub attempts: Vec<u64>,
     pub pending: Option<tokio::sync::oneshot::Sender<std::io::Result<Box<dyn rodbus::verif::Io>>>>,
@@ -413,11 +417,20 @@ pub type StateLog = Arc<Mutex<Vec<(ClientState, u64)>>>;
 struct RecListener {
     log: StateLog,
     t0: Instant,
+    conn: Arc<Mutex<ConnShared>>,
 }
 
 impl Listener<ClientState> for RecListener {
     fn update(&mut self, value: ClientState) -> MaybeAsync<()> {
         let ms = (Instant::now() - self.t0).as_millis() as u64;
+        if value == ClientState::Disabled {
+            // "Disabled after a disable, which also closes an open connection": by the time the
+            // application hears Disabled the connection is gone
+            let mut c = self.conn.lock().unwrap();
+            if c.ios.last().map(|io| !io.is_dropped()).unwrap_or(false) {
+                c.disabled_before_close += 1;
+            }
+        }
         self.log.lock().unwrap().push((value, ms));
         MaybeAsync::ready(())
     }
@@ -450,7 +463,7 @@ pub struct ClientTaskCfg {
 impl ClientTaskHarness {
     pub fn new(cfg: &ClientTaskCfg) -> Self {
         let t0 = Instant::now();
-        let conn = Arc::new(Mutex::new(ConnShared { attempts: vec![], pending: None, t0 }));
+        let conn = Arc::new(Mutex::new(ConnShared { ios: vec![], disabled_before_close: 0, attempts: vec![], pending: None, t0 }));
         let states: StateLog = Arc::new(Mutex::new(vec![]));
         let options = ClientOptions::default()
             .decode_level(cfg.decode)
@@ -462,7 +475,7 @@ impl ClientTaskHarness {
                 Duration::from_millis(cfg.retry_min_ms),
                 Duration::from_millis(cfg.retry_max_ms),
             ),
-            Some(Box::new(RecListener { log: states.clone(), t0 })),
+            Some(Box::new(RecListener { log: states.clone(), t0, conn: conn.clone() })),
             options,
         );
         let mut handles = vec![];
@@ -564,6 +577,7 @@ impl ClientTaskHarness {
                 let (sio, io) = script_io();
                 let ok = tx.send(Ok(Box::new(sio) as Box<dyn rodbus::verif::Io>)).is_ok();
                 if ok {
+                    self.conn.lock().unwrap().ios.push(io.clone());
                     self.ios.push(io);
                 }
                 ok
